@@ -266,7 +266,34 @@ func (fr *Frame) call(st *State, v ssa.Value, cc *ssa.CallCommon, in ssa.Instruc
 			setResults(rs)
 			return nil
 		}
-		return unmodelled("call through a function value")
+		// A call through some other function value (a closure returned by a callee, a field): the
+		// callee is unknown, so it may do anything to the heap and to ghost state that calls can
+		// change - nothing is kept, not even the cells of captured variables (the unknown function
+		// may be a sibling closure) - and its results are unconstrained. An over-approximation:
+		// what is proved holds whatever the function does (termination and panics aside, §4).
+		if ft, ferr := fr.value(cc.Value); ferr == nil && vc.effectFreeFuncs[ft.S] {
+			// a function value that a (trusted) contract declared effect-free: effectfree(result)
+			vc.assume("function values declared effectfree() by an assumed contract have no effect on the heap")
+			rs, err := freshResults(st, false)
+			if err != nil {
+				return fr.unsupportedErr(in, err)
+			}
+			setResults(rs)
+			return nil
+		}
+		vc.note("%s: call through a function value: arbitrary effect on the heap, results unconstrained", fr.pos(in.Pos()))
+		vc.havocAllLoop(st)
+		for _, k := range sortedKeys(vc.ctx.ghostVars) {
+			if gv := vc.ctx.ghostVars[k]; gv.PkgPath == vc.rootPkg() {
+				vc.havocGhostVar(st, gv)
+			}
+		}
+		rs, err := freshResults(st, false)
+		if err != nil {
+			return fr.unsupportedErr(in, err)
+		}
+		setResults(rs)
+		return nil
 	}
 }
 
@@ -1004,8 +1031,19 @@ func (fr *Frame) applyContract(st *State, c *FuncContract, key string, sig *type
 			vc.heapReg[s] = true
 		}
 	}
-	if c.Logged {
-		if gv := vc.ctx.ghostVars[c.PkgPath+"::calls_"+c.LogName]; gv != nil {
+	// A package may restate, in its own contract file, the bookkeeping it wants for a function
+	// that carries a (proved or trusted) contract in its own package: the callee's own contract
+	// decides what the call means; the local declaration only adds its call log and ghost
+	// assignments (ghost state of the calling package).
+	shadow := vc.ctx.contracts[vc.rootPkg()+"=>"+key]
+	if shadow == c {
+		shadow = nil
+	}
+	for _, lc := range []*FuncContract{c, shadow} {
+		if lc == nil || !lc.Logged {
+			continue
+		}
+		if gv := vc.ctx.ghostVars[lc.PkgPath+"::calls_"+lc.LogName]; gv != nil {
 			cur, _, _ := vc.ghostVar(st, gv)
 			st.ghost["gv!"+gv.PkgPath+"::"+gv.Name] = vc.Define("calls", Add(cur, IntLit(1)))
 		}
@@ -1014,7 +1052,7 @@ func (fr *Frame) applyContract(st *State, c *FuncContract, key string, sig *type
 			off = 1
 		}
 		for i := 0; i < sig.Params().Len(); i++ {
-			if gv := vc.ctx.ghostVars[c.PkgPath+"::arg_"+c.LogName+"_"+sig.Params().At(i).Name()]; gv != nil && off+i < len(args) {
+			if gv := vc.ctx.ghostVars[lc.PkgPath+"::arg_"+lc.LogName+"_"+sig.Params().At(i).Name()]; gv != nil && off+i < len(args) {
 				if _, _, err := vc.ghostVar(st, gv); err == nil {
 					st.ghost["gv!"+gv.PkgPath+"::"+gv.Name] = args[off+i]
 				}
@@ -1090,8 +1128,25 @@ func (fr *Frame) applyContract(st *State, c *FuncContract, key string, sig *type
 		post.vars[k] = v
 	}
 	bindResults(post, sig, rs)
+	for _, en := range c.Ensures {
+		markEffectFree(vc, en.E, post)
+	}
+	type pkgSet struct {
+		gs  GhostSet
+		pkg string
+	}
+	var sets []pkgSet
 	for _, gs := range c.Sets {
-		gv := vc.ctx.ghostVars[c.PkgPath+"::"+gs.Var]
+		sets = append(sets, pkgSet{gs, c.PkgPath})
+	}
+	if shadow != nil {
+		for _, gs := range shadow.Sets {
+			sets = append(sets, pkgSet{gs, shadow.PkgPath})
+		}
+	}
+	for _, ps := range sets {
+		gs := ps.gs
+		gv := vc.ctx.ghostVars[ps.pkg+"::"+gs.Var]
 		if gv == nil {
 			vc.note("contract error: %s sets unknown ghost variable %s", key, gs.Var)
 			continue
@@ -1793,13 +1848,18 @@ func (fr *Frame) contractEffects(c *FuncContract, ef *effects) {
 	for _, g := range c.Assigns {
 		ef.ghostVars[fr.vc.ctx.ghostKey(c.PkgPath, g)] = true
 	}
-	for _, gs := range c.Sets {
-		ef.ghostVars[c.PkgPath+"::"+gs.Var] = true
-	}
-	if c.Logged {
-		for _, n := range sortedKeys(fr.vc.ctx.ghostVars) {
-			if n == c.PkgPath+"::calls_"+c.LogName || strings.HasPrefix(n, c.PkgPath+"::arg_"+c.LogName+"_") {
-				ef.ghostVars[n] = true
+	for _, lc := range []*FuncContract{c, fr.vc.ctx.contracts[fr.vc.rootPkg()+"=>"+shadowKeyOf(c)]} {
+		if lc == nil {
+			continue
+		}
+		for _, gs := range lc.Sets {
+			ef.ghostVars[lc.PkgPath+"::"+gs.Var] = true
+		}
+		if lc.Logged {
+			for _, n := range sortedKeys(fr.vc.ctx.ghostVars) {
+				if n == lc.PkgPath+"::calls_"+lc.LogName || strings.HasPrefix(n, lc.PkgPath+"::arg_"+lc.LogName+"_") {
+					ef.ghostVars[n] = true
+				}
 			}
 		}
 	}
@@ -2123,4 +2183,31 @@ func resultIsParam(c *FuncContract, i, n int, names []string, args []Term, srt S
 		}
 	}
 	return Term{}, false
+}
+
+// markEffectFree: an ensures clause of the form effectfree(x) [&& ...] declares the function
+// value x (typically a result: a closer, a release function) to have no effect on the heap.
+func markEffectFree(vc *VC, e *Expr, env *SpecEnv) {
+	if e.Kind == EBinary && e.Op == "&&" {
+		markEffectFree(vc, e.Args[0], env)
+		markEffectFree(vc, e.Args[1], env)
+		return
+	}
+	if e.Kind == ECall && e.Args[0].Kind == EIdent && e.Args[0].Name == "effectfree" && len(e.Args) == 2 {
+		if v, err := env.Eval(e.Args[1]); err == nil && v.T.Sort == SFunc {
+			if vc.effectFreeFuncs == nil {
+				vc.effectFreeFuncs = map[string]bool{}
+			}
+			vc.effectFreeFuncs[v.T.S] = true
+		}
+	}
+}
+
+// shadowKeyOf: the key under which a calling package's local (extern) declaration of the function
+// that contract c belongs to would be registered.
+func shadowKeyOf(c *FuncContract) string {
+	if c.Kind == "extern" {
+		return "\x00none"
+	}
+	return c.PkgPath + "." + c.Key
 }
